@@ -187,7 +187,7 @@ Judge(e) ==
       rv == IF h \in DOMAIN hvT THEN hvT[h] ELSE 0
       R  == IF rv \in DOMAIN obs THEN obs[rv] ELSE L
       ok == e.res = "ok"
-      isWrite == op \in {"append", "overwrite", "delete", "update", "merge_insert", "compact", "restore",
+      isWrite == op \in {"append", "commit", "overwrite", "delete", "update", "merge_insert", "compact", "restore",
                           "create_index", "optimize_indices"}
       \* keys the operation selected at its read version
       eff == Effect(st, R)
@@ -204,7 +204,7 @@ Judge(e) ==
   (IF e.res = "panic" THEN {"Panic"}
    ELSE IF ~ok \/ ~isWrite THEN (IF P # L /\ op # "reread" THEN {"FailedHasNoEffect"} ELSE {})
    ELSE
-   CASE op = "append" -> IF AppendRel(L, P, st) THEN {} ELSE {"ScanEqualsModel"}
+   CASE op \in {"append", "commit"} -> IF AppendRel(L, P, st) THEN {} ELSE {"ScanEqualsModel"}
      [] op = "overwrite" -> IF OverwriteRel(L, P, st) THEN {} ELSE {"ScanEqualsModel"}
      [] op \in {"delete", "update", "merge_insert"} ->
           \* (the comparison with the SQL reference semantics, C12, is JudgeDml below)
@@ -244,7 +244,7 @@ SerialAfter(e, R) ==
       eff == Effect(st, R) IN
   IF e.res # "ok" THEN serial
   ELSE CASE op \in {"create", "overwrite"} -> RowsSet(StepRows(st))
-         [] op = "append" -> serial \cup RowsSet(StepRows(st))
+         [] op \in {"append", "commit"} -> serial \cup RowsSet(StepRows(st))
          [] op \in {"delete", "update", "merge_insert"} ->
               {r \in serial : r.id \notin eff.del}
                 \cup {[id |-> i, val |-> eff.val[i]] : i \in {x \in eff.new : x \notin eff.del \/ x \in {r.id : r \in serial}}}
@@ -259,7 +259,7 @@ TruthAfter(e, R, P) ==
       eff == Effect(st, R) IN
   IF e.res # "ok" THEN truth
   ELSE CASE op \in {"create", "overwrite"} -> [i \in PIds(P) |-> [cre |-> nv, upd |-> nv]]
-         [] op = "append" -> [i \in PIds(P) |-> IF i \in DOMAIN truth THEN truth[i] ELSE [cre |-> nv, upd |-> nv]]
+         [] op \in {"append", "commit"} -> [i \in PIds(P) |-> IF i \in DOMAIN truth THEN truth[i] ELSE [cre |-> nv, upd |-> nv]]
          [] op \in {"delete", "update", "merge_insert"} ->
               [i \in ((DOMAIN truth) \ (eff.del \ eff.new)) \cup eff.new |->
                  IF i \in eff.new
@@ -381,6 +381,24 @@ JudgeTake(e, L) ==
   ELSE UNION {JudgeOneTake(L, e.extra.takes[i].by, e.extra.takes[i].keys, e.extra.takes[i].res, e.extra.takes[i].ids)
               : i \in 1..Len(e.extra.takes)}
 
+\* C08: after a cleanup every version the policy retains (and the latest, tagged ones, and versions not older than the
+\* handle the cleanup ran through) reads exactly as before; removed ones are only policy-selected ones
+JudgeCleanup(e) ==
+  LET st == e.step
+      x == e.extra
+      tagged == {x.tags[i][2] : i \in 1..Len(x.tags)}
+      Lv == Max(DOMAIN obs)
+      before == IF "before_version" \in DOMAIN st THEN st.before_version ELSE 1000000
+      selected == {v \in DOMAIN obs : v < before /\ v < x.hv /\ v # Lv}
+      blocked == ("error_if_tagged" \in DOMAIN st) /\ st.error_if_tagged /\ selected \cap tagged # {}
+      mustStay == IF blocked THEN DOMAIN obs ELSE (DOMAIN obs) \ (selected \ tagged)
+      readOf(v) == LET k == CHOOSE i \in 1..Len(x.rereads) : x.rereads[i][1] = v IN x.rereads[k][2]
+      seen == {x.rereads[i][1] : i \in 1..Len(x.rereads)}
+  IN (IF \A v \in mustStay : v \in seen /\ readOf(v) = obs[v] THEN {} ELSE {<<"RetainedReadable", "retained-version-changed">>})
+     \cup (IF \A v \in (DOMAIN obs) \cap seen : IsErr(readOf(v)) \/ readOf(v) = obs[v] THEN {} ELSE {<<"RetainedReadable", "version-altered">>})
+     \cup (IF blocked /\ e.res = "ok" THEN {<<"OnlyPolicyManifests", "tagged-old-version-not-reported">>} ELSE {})
+     \cup (IF ~blocked /\ e.res # "ok" THEN {<<"RetainedReadable", "cleanup-failed">>} ELSE {})
+
 \* C42: the copied root reads, at every observed version and through every tag, what the original read
 JudgeCopy(e) ==
   IF e.res # "ok" \/ "projs" \notin DOMAIN e.extra THEN {<<"CopyReadsSame", "copy-unreadable">>}
@@ -412,7 +430,7 @@ JudgeDml(e, L, R, indexed) ==
   ELSE {}
 
 Ops == {"create","append","overwrite","checkout","refresh","delete","update","merge_insert","compact","restore","reread","validate",
-        "query","take","take_probe","create_index","optimize_indices","copy_reread","tag","drop_table"}
+        "query","take","take_probe","create_index","optimize_indices","copy_reread","tag","drop_table","cleanup","age_files","begin_append","commit"}
 
 Init == /\ l = 1 /\ obs = <<>> /\ hvT = <<>> /\ issued = {} /\ truth = <<>> /\ truthAt = <<>>
         /\ serial = {} /\ touched = <<>> /\ stable = FALSE /\ scn = 0 /\ bad = <<>>
@@ -472,9 +490,10 @@ Step(e) ==
            pairs == IF op = "query" THEN JudgeQuery(e, L, indexed)
                     ELSE IF op \in {"take", "take_probe"} THEN JudgeTake(e, L)
                     ELSE IF op = "copy_reread" THEN JudgeCopy(e)
+                    ELSE IF op = "cleanup" THEN JudgeCleanup(e)
                     ELSE IF op \in {"delete", "update", "merge_insert"} /\ usable THEN JudgeDml(e, L, R, indexed)
                     ELSE {}
-           names1 == IF op \in {"query", "take", "take_probe", "copy_reread", "tag"} THEN (IF e.latest # L THEN {"FailedHasNoEffect"} ELSE {})
+           names1 == IF op \in {"query", "take", "take_probe", "copy_reread", "tag", "cleanup", "age_files", "begin_append"} THEN (IF e.latest # L THEN {"FailedHasNoEffect"} ELSE {})
                      ELSE IF op = "reread"
                      THEN (IF e.res = "ok" /\ st.v \in DOMAIN obs /\ e.extra.proj # obs[st.v] THEN {"VersionsImmutable"} ELSE {})
                           \cup (IF e.res # "ok" /\ st.v \in DOMAIN obs THEN {"VersionsImmutable"} ELSE {})
